@@ -71,8 +71,8 @@ def isoWeekOfDays (days : Int) : Int × Nat :=
   let iy := (civilFromDays thu).1
   (iy, ((thu - daysFromCivil iy 1 1) / 7).toNat + 1)
 
-def Civil.ofInstant (tNs : Int) (offSec : Int) : Civil :=
-  let secs := tNs / nsPerSec + offSec
+/-- The civil fields of a local wall-clock time given as seconds since 1970-01-01T00:00:00 local. -/
+def Civil.ofLocalSecs (secs : Int) : Civil :=
   let days := secs / 86400
   let sod := (secs % 86400).toNat
   let (y, m, d) := civilFromDays days
@@ -81,6 +81,11 @@ def Civil.ofInstant (tNs : Int) (offSec : Int) : Civil :=
     doy := (days - daysFromCivil y 1 1).toNat + 1,
     hour := sod / 3600, minute := sod % 3600 / 60, second := sod % 60,
     isoYear := iy, isoWeek := iw, weekday := isoWeekday days }
+
+/-- local wall-clock seconds of an instant (ns since the epoch) in a fixed-offset zone -/
+def localSecs (tNs : Int) (offSec : Int) : Int := tNs / nsPerSec + offSec
+
+def Civil.ofInstant (tNs : Int) (offSec : Int) : Civil := Civil.ofLocalSecs (localSecs tNs offSec)
 
 /-- `jiff::Span` as far as `forget.rs` can pass one: a sign and non-negative unit counts; all time units
 (hours … nanoseconds) are collapsed into nanoseconds. -/
